@@ -73,6 +73,9 @@ def import_closure(mods):
     return seen
 
 
+# translators that did not understand the source in this run: (generated module, extractor file, reason)
+STALE = []
+
 # which Lean driver module answers for a harness stream id (default: Driver/<id>.lean)
 DRIVER_OF = {"C01": "C01", "C14": "C01", "C05": "C01", "C10S": "C01", "C20S": "C01", "C05CLI": "C05Cli", "C07CLI": "C05Cli"}
 
@@ -102,13 +105,26 @@ def extract_tables(prop=None, mod=None):
         if prop is None or not failed:
             raise BuildError("extractor", out[-4000:])
         deps = prop_modules(prop, mod)
+        stale = []
         for f in failed:
             try:
                 name = re.search(r'^NAME\s*=\s*"(\w+)"', open(os.path.join(ROOT, "tools", "extractors", f)).read(), re.M).group(1)
             except Exception:
                 name = None
             if name is None or ("SkimModel.Generated." + name) in deps:
-                raise BuildError("extractor", out[-4000:])
+                # the translator does not UNDERSTAND the current source (it never guesses).  The table it wrote for the last tree it
+                # understood stays in place; this run ties the property to the code by the correspondence streams alone, searches
+                # five times as many cases, and says so (NOTE line, evidence).  A table that IS re-translated and no longer satisfies
+                # its theorem is a broken proof as before.
+                if name is None or not os.path.exists(os.path.join(LEAN, "SkimModel", "Generated", name + ".lean")):
+                    raise BuildError("extractor", out[-4000:])
+                why = ""
+                mm = re.search(r"EXTRACTOR-FAILED %s\n(?:.*\n)*?(\w*(?:Error|Exception)[^\n]*)" % re.escape(f), out)
+                if mm:
+                    why = mm.group(1)[:300]
+                stale.append((name, f, why))
+        return stale
+    return []
 
 
 def theorems_of(prop):
@@ -134,7 +150,7 @@ def theorems_of(prop):
 def lean_build(prop, thorough=False, extra=(), mod=None):
     """lake build of the property's theorem module(s) and the driver; axiom audit."""
     with Lock("lake"):
-        extract_tables(prop, mod)
+        STALE[:] = extract_tables(prop, mod) or []
         bad = []
         for f in lean_sources():
             m = FORBIDDEN.search(strip_comments(open(f).read()))
@@ -504,13 +520,15 @@ def run_property(mod, tier, seed, replay=None):
         ncases = len(cases)
     else:
         n = mod.N_QUICK if tier == "quick" else mod.N_THOROUGH
-        if proof_err is not None:
-            n *= 5   # intensified search: a proof obligation broke
+        if proof_err is not None or STALE:
+            n *= 5   # intensified search: a proof obligation broke / a translator did not understand the source
         cases = corpus_cases(prop) + list(getattr(mod, "CORPUS", [])) + list(mod.gen(rng, tier, n))
         results = explore(mod, cases, "")
         ncases = len(cases)
         for sm in subs:
             sn = sm.N_QUICK if tier == "quick" else sm.N_THOROUGH
+            if STALE:
+                sn *= 3
             name = sm.__name__.rsplit(".", 1)[1]
             scases = corpus_cases(prop + "-" + name) + list(sm.gen(rng, tier, sn))
             results.extend(explore(sm, scases, name))
@@ -530,6 +548,11 @@ def run_property(mod, tier, seed, replay=None):
         path = write_replay(prop, seed, "proof", dict(kind="proof-broken" if proof_err.stage != "extractor" else "extractor-broken",
                                                       theorem_or_stream=proof_err.stage, detail=proof_err.detail))
         violations.append((path, " no-failing-input-found"))
+    for name, f, why in STALE:
+        msg = ("translator tools/extractors/%s did not understand the current source (%s): Generated/%s.lean is the table of the last tree it "
+               "understood; this run tied the property by its correspondence streams alone, with five times the cases" % (f, why or "shape not recognised", name))
+        notes.append(msg)
+        print("NOTE: property=%s %s" % (prop, msg))
     for fid, small in known_hits.items():
         print("KNOWN-FINDING: property=%s %s [%s] case=%s" % (prop, known[fid]["what_fails"], fid, small["case"][:200]))
     for path, suffix in violations:
@@ -586,7 +609,7 @@ def finish(mod, tier, seed, t0, thms, audited, checker, results, nviol, notes, k
             outcome=outcome, histogram=hist, samples=samples,
             known_findings_reproduced=sorted(known_hits.keys()),
         ),
-        assumptions=list(getattr(mod, "ASSUMPTIONS", [])),
+        assumptions=list(getattr(mod, "ASSUMPTIONS", [])) + list(notes),
         wall_s=round(time.time() - t0, 2), violations=nviol)
     os.makedirs(os.path.join(ROOT, "evidence"), exist_ok=True)
     json.dump(ev, open(os.path.join(ROOT, "evidence", prop + ".json"), "w"), indent=1, ensure_ascii=False)
